@@ -16,20 +16,26 @@ requires: keys of `H` bits, strictly ascending, non-empty (`WF H b ∧ b ≠ []`
 "After a commit the same answers are obtained from a fresh instance opened on the stored data at
 that root, and every previously committed root remains readable with its own contents": the storage
 layer is modelled in `Aergo.Model.TrieStore` (the 4-level batch the code builds for a subtree, the
-key it is stored under, `Trie.get` through `loadChildren`/`loadBatch`/`parseBatch` on a store) and
-the clause is carried by `get_from_store`, `store_monotone`, `old_roots_live`,
-`history_roots_stay_readable` below — for every height that is a multiple of 4, an arbitrary hash
-function, under the explicit hypothesis that it is injective (and overlap-free) on the finite list
-of byte strings actually hashed for the committed trees.
+key it is stored under, `Trie.get` through `loadChildren`/`loadBatch`/`parseBatch` on a store) and in
+`Aergo.Model.TrieStoreUpd` (`updU`: the `updatedNodes` bookkeeping of one `Update` — every `storeNode`
+and `deleteOldNode` of trie.go at its call site; `runBlocks`: per block a fresh instance, one `Update`,
+a `Commit` that writes exactly what was recorded). The clause is carried by `get_from_store`,
+`store_monotone`, `old_roots_live`, `history_roots_stay_readable` (commit = all batches of the tree) and
+by `update_records_what_commit_needs`, `incremental_commits_keep_roots_readable` (commit = what `Update`
+recorded) below — for every height that is a multiple of 4, an arbitrary hash function, under the
+explicit hypothesis that it is injective (and overlap-free, and never the all-zero digest) on the
+finite list of byte strings actually hashed for the committed trees.
 
-Not carried by a theorem (exercised on the real code by the harness only): which subset of the
-batches an `Update` records for the next commit (`updatedNodes`; the model commits all batches of
-the tree — the harness reads the real store under the model's keys), the node cache, the goroutines
-of `updateParallel`.
+Not carried by a theorem (exercised on the real code by the harness only): the slot-level mutation of
+the in-memory batch (that the batch handed to `storeNode` has exactly the slots `batchOf` describes:
+ops `sbatch`/`ser` on the committed bytes), a second `Update` before the `Commit` (the node never does
+it with a different batch; the same batch twice is generated and corresponded by op `wset`), the node
+cache, `AtomicUpdate`/`Revert`/`Stash` (no caller in the node), the goroutines of `updateParallel`.
 -/
 import Aergo.Lemmas.TrieCanon
 import Aergo.Lemmas.TrieBatch
 import Aergo.Lemmas.TrieStoreHash
+import Aergo.Lemmas.TrieStoreBlocks
 
 namespace Aergo.Props.C10
 open Aergo.Trie
@@ -206,10 +212,23 @@ def committedTrees (H : Nat) (bs : List (List (KV V))) : List (T V) :=
   (List.range (bs.length + 1)).map fun i => runTrie H (bs.take i)
 
 open Aergo.TrieStore in
+/-- the tree reached by a prefix of a legal history with 32-byte values is what the trie commits -/
+private theorem runTrie_committed (n : Nat) (bs : List (List (KV Bytes))) (hl : Legal (4 * n) bs)
+    (hv : ∀ b ∈ bs, ∀ kv ∈ b, ∀ v, kv.2 = some v → v.length = 32) (j : Nat) :
+    Committed n (runTrie (4 * n) (bs.take j)) := by
+  have legal_take : Legal (4 * n) (bs.take j) := fun b hb => hl b (List.mem_of_mem_take hb)
+  have cn := reachable_canonical (4 * n) (bs.take j) legal_take
+  refine ⟨cn, vals32_of_get _ _ cn fun k v hk' e => ?_⟩
+  rw [read_your_writes (4 * n) (bs.take j) legal_take k hk'] at e
+  exact foldl_applyF_vals (fun v => v.length = 32) (bs.take j) (fun _ => none) (by simp)
+    (fun b hb => hv b (List.mem_of_mem_take hb)) k v e
+
+open Aergo.TrieStore in
 /-- **The clause for whole histories**: apply any legal sequence of batches (32-byte values), committing
 after each; afterwards a fresh instance opened at the root reached after the first `i` batches — for
 every `i` — reads every key as the map those `i` batches describe: the value last written, nothing if
-deleted or never written. -/
+deleted or never written. (The commit writes all batches of the tree: `storeAfter`; see
+`incremental_commits_keep_roots_readable` for the commit that writes what `Update` recorded.) -/
 theorem history_roots_stay_readable (c : HashCtx) (n : Nat) (ok : HashOK c (4 * n)) (bs : List (List (KV Bytes)))
     (hl : Legal (4 * n) bs) (hv : ∀ b ∈ bs, ∀ kv ∈ b, ∀ v, kv.2 = some v → v.length = 32)
     (g : HashGoodOn c.H (hashedAll c n (committedTrees (4 * n) bs)))
@@ -221,15 +240,145 @@ theorem history_roots_stay_readable (c : HashCtx) (n : Nat) (ok : HashOK c (4 * 
     intro t ht
     simp only [committedTrees, List.mem_map, List.mem_range] at ht
     obtain ⟨j, _, rfl⟩ := ht
-    have cn := reachable_canonical (4 * n) (bs.take j) (legal_take j)
-    refine ⟨cn, vals32_of_get _ _ cn fun k v hk' e => ?_⟩
-    rw [read_your_writes (4 * n) (bs.take j) (legal_take j) k hk'] at e
-    exact foldl_applyF_vals (fun v => v.length = 32) (bs.take j) (fun _ => none) (by simp)
-      (fun b hb => hv b (List.mem_of_mem_take hb)) k v e
+    exact runTrie_committed n bs hl hv j
   have mem : runTrie (4 * n) (bs.take i) ∈ committedTrees (4 * n) bs := by
     simp only [committedTrees, List.mem_map, List.mem_range]
     exact ⟨i, by omega, rfl⟩
   rw [old_roots_live c n ok _ committed g _ mem key hk, read_your_writes (4 * n) (bs.take i) (legal_take i) key hk]
+
+/-! ### The commit writes what `Update` recorded (`updatedNodes`)
+
+`TrieStore.updU` is `Trie.update` with the bookkeeping of `updatedNodes` threaded through it — every `storeNode` and
+`deleteOldNode` of trie.go at its call site, keyed by hash (`updU_tree`: the tree it computes is `update`'s;
+`updUH_sim`: the hash-caching variant the model driver runs computes the same). `runBlocks` is a history of blocks:
+per block a fresh instance at the current root, one `Update`, and a `Commit` that writes exactly the recorded entries.
+`Lemmas/TrieStoreInc.lean` proves, by induction over the height, that after one `Update` every batch root of the new
+tree is recorded unless the store already holds a batch under that key (`updU_inv`). -/
+
+open Aergo.TrieStore in
+/-- The bookkeeping is an annotation: `updU` computes the tree and the `deleted` flag of `Trie.update`, whatever
+`updatedNodes` held before and whatever is recorded as a value. -/
+theorem bookkeeping_does_not_change_update (c : HashCtx) (val : ValFn) (h : Nat) (p : List Bool) (t : T Bytes)
+    (kvs : List (KV Bytes)) (un : UN) : (updU c val h p t kvs un).1 = update h t kvs :=
+  updU_tree val h p t kvs un
+
+open Aergo.TrieStore in
+/-- The variant the model driver executes (`updUH`: the hash of every subtree cached in the tree, as the Go code finds
+it in the parent's batch; one hash evaluation per node the Go code hashes) computes the same tree, flag and
+`updatedNodes` as `updU`, on every correctly annotated tree, and returns a correctly annotated tree. -/
+theorem hash_caching_update_agrees (c : HashCtx) (valH : ValFnH) (val : ValFn) (va : ValAgree valH val)
+    (h : Nat) (rp : List Bool) (t : TH) (kvs : List (KV Bytes)) (un : UN) (w : WfH c h rp.reverse t) :
+    Sim c h rp.reverse (updUH c valH h rp t kvs un) (updU c val h rp.reverse t.erase kvs un) :=
+  updUH_sim va h rp t kvs un w
+
+open Aergo.TrieStore in
+/-- **One `Update` records what the next `Commit` needs** (any height, any path prefix `p` with `p.length + h = Ht`,
+any canonical subtree, any sorted non-empty batch of 32-byte values, starting from an empty `updatedNodes`):
+(1) every recorded entry is the (hash, serialised batch) pair of a canonical subtree — nothing else is ever written;
+(2) every batch root of the new tree is recorded, unless a batch root of the OLD tree has the same key — and then
+the store, which holds the old tree, already has these very bytes under it (`genuine_unique`).
+`L` is any list containing the strings hashed for the new tree and the strings of its shortcuts at all heights. -/
+theorem update_records_what_commit_needs (c : HashCtx) (Ht : Nat) (L : List Bytes) (env : Env c Ht L)
+    (h : Nat) (p : List Bool) (t : T Bytes) (kvs : List (KV Bytes))
+    (cn : Canon h t) (v32 : Vals32 t) (w : WF h kvs) (hne : kvs ≠ []) (k32 : KV32 kvs) (hp : p.length + h = Ht)
+    (cl : Closed c Ht L h p (update h t kvs).1) :
+    (∀ e ∈ (updU c (batchVal c) h p t kvs []).2, Genuine c Ht L e) ∧
+    (∀ kv ∈ pairsAt c h p (update h t kvs).1,
+      kv ∈ (updU c (batchVal c) h p t kvs []).2 ∨ ∃ kv0 ∈ pairsAt c h p t, kv0.1 = kv.1) := by
+  have inv := updU_inv env h p t kvs [] cn v32 w hne k32 hp cl
+  refine ⟨fun e he => ?_, fun kv hkv => ?_⟩
+  · rcases inv.genuine e he with h1 | h1
+    · simp at h1
+    · exact h1
+  · have hkv' : kv ∈ pairsAt c h p (updU c (batchVal c) h p t kvs []).1.1 := by
+      rw [updU_tree]; exact hkv
+    rcases inv.present kv hkv' with h1 | h1
+    · exact Or.inl h1
+    · simp only [OKt, List.mem_map] at h1
+      obtain ⟨kv0, m0, e0⟩ := h1
+      exact Or.inr ⟨kv0, m0, e0⟩
+
+open Aergo.TrieStore in
+/-- every byte string hashed for the trees committed along a history, and the strings of their shortcuts at the
+other heights (a shortcut that moves is re-hashed with its new height on the way) -/
+def hashedInc (c : HashCtx) (n : Nat) (bs : List (List (KV Bytes))) : List Bytes :=
+  (committedTrees (4 * n) bs).flatMap fun t => hashedT c (4 * n) [] t ++ leafStrs c (4 * n) [] t
+
+open Aergo.TrieStore in
+/-- **Persistence with the real commit discipline.** Apply any legal history of batches (32-byte values); each block
+commits only what its `Update` left in `updatedNodes`. Afterwards a fresh instance at the root reached after the first
+`i` batches — for every `i` — reads every key as the map those `i` batches describe. Hypotheses on the hash function,
+all over the explicit finite list `hashedInc c n bs`: good (`HashGoodOn`) and never the all-zero digest
+(`deleteOldNode(nil)` deletes the all-zero key from `updatedNodes`). -/
+theorem incremental_commits_keep_roots_readable (c : HashCtx) (n : Nat) (ok : HashOK c (4 * n)) (bs : List (List (KV Bytes)))
+    (hl : Legal (4 * n) bs) (hv : ∀ b ∈ bs, ∀ kv ∈ b, ∀ v, kv.2 = some v → v.length = 32)
+    (g : HashGoodOn c.H (hashedInc c n bs)) (nz : ∀ x ∈ hashedInc c n bs, c.H x ≠ zeroKey)
+    (i : Nat) (hi : i ≤ bs.length) (key : List Bool) (hk : key.length = 4 * n) :
+    getRoot c (runBlocks c n bs).1 (4 * n) (rootOf c (4 * n) (runTrie (4 * n) (bs.take i))) key
+      = .ok (specMap (bs.take i) key) := by
+  have env : Env c (4 * n) (hashedInc c n bs) := ⟨ok, g, nz⟩
+  have closed : ∀ j, j ≤ bs.length → Closed c (4 * n) (hashedInc c n bs) (4 * n) [] (runTrie (4 * n) (bs.take j)) := by
+    intro j hj
+    have m : runTrie (4 * n) (bs.take j) ∈ committedTrees (4 * n) bs := by
+      simp only [committedTrees, List.mem_map, List.mem_range]
+      exact ⟨j, by omega, rfl⟩
+    exact ⟨fun x hx => List.mem_flatMap.mpr ⟨_, m, List.mem_append.mpr (Or.inl hx)⟩,
+      fun x hx => List.mem_flatMap.mpr ⟨_, m, List.mem_append.mpr (Or.inr hx)⟩⟩
+  -- after j blocks: the tree is `runTrie`, and the store covers the trees of all prefixes
+  have main : ∀ j, j ≤ bs.length →
+      (runBlocks c n (bs.take j)).2 = runTrie (4 * n) (bs.take j) ∧
+      StoreInv c n (hashedInc c n bs) (runBlocks c n (bs.take j)).1
+        ((List.range (j + 1)).map fun i => runTrie (4 * n) (bs.take i)) := by
+    intro j
+    induction j with
+    | zero =>
+      intro _
+      refine ⟨rfl, ⟨fun k v h => by simp [runBlocks, emptyStore] at h, ?_⟩⟩
+      intro t ht
+      simp at ht
+      subst ht
+      intro kv hkv
+      simp [runTrie, pairsAt] at hkv
+    | succ j ih =>
+      intro hj
+      obtain ⟨et, si⟩ := ih (by omega)
+      have hjlt : j < bs.length := by omega
+      have etake : bs.take (j + 1) = bs.take j ++ [bs[j]] := by
+        rw [List.take_add_one, List.getElem?_eq_getElem hjlt]; rfl
+      have hb := hl bs[j] (List.getElem_mem hjlt)
+      have cm := runTrie_committed n bs hl hv j
+      have k32 : KV32 bs[j] := fun kv hkv v hv' => hv bs[j] (List.getElem_mem hjlt) kv hkv v hv'
+      have erun : runTrie (4 * n) (bs.take (j + 1)) = (update (4 * n) (runTrie (4 * n) (bs.take j)) bs[j]).1 := by
+        simp only [runTrie]; rw [etake, List.foldl_append]; rfl
+      have cur : Covers (runBlocks c n (bs.take j)).1 (pairsAt c (4 * n) [] (runTrie (4 * n) (bs.take j))) :=
+        si.covers _ (by simp only [List.mem_map, List.mem_range]; exact ⟨j, by omega, rfl⟩)
+      have cl' := closed (j + 1) hj
+      rw [erun] at cl'
+      obtain ⟨si', et'⟩ := blockStep_inv env (σ := (runBlocks c n (bs.take j)).1) si cur cm.1 cm.2 (closed j (by omega))
+        bs[j] hb.1 hb.2 k32 cl'
+      have estep : runBlocks c n (bs.take (j + 1)) =
+          blockStep c n ((runBlocks c n (bs.take j)).1, runTrie (4 * n) (bs.take j)) bs[j] := by
+        rw [etake]
+        simp only [runBlocks, List.foldl_append, List.foldl_cons, List.foldl_nil]
+        congr 1
+        exact Prod.ext rfl et
+      rw [estep]
+      refine ⟨by rw [et', erun], ?_⟩
+      have : ((List.range (j + 1 + 1)).map fun i => runTrie (4 * n) (bs.take i)) =
+          ((List.range (j + 1)).map fun i => runTrie (4 * n) (bs.take i)) ++
+            [(blockStep c n ((runBlocks c n (bs.take j)).1, runTrie (4 * n) (bs.take j)) bs[j]).2] := by
+        rw [List.range_succ (n := j + 1), List.map_append, et']
+        simp only [List.map_cons, List.map_nil, erun]
+      rw [this]
+      exact si'
+  obtain ⟨_, si⟩ := main bs.length (Nat.le_refl _)
+  rw [List.take_length] at si
+  have cm := runTrie_committed n bs hl hv i
+  have cv := si.covers (runTrie (4 * n) (bs.take i)) (by simp only [List.mem_map, List.mem_range]; exact ⟨i, by omega, rfl⟩)
+  have cv' : Covers (runBlocks c n bs).1 (pairsOf c n [] (runTrie (4 * n) (bs.take i))) :=
+    fun kv hkv => cv kv (pairsOf_sub_pairsAt n [] _ cm.1 cm.2 kv hkv)
+  have legal_take : Legal (4 * n) (bs.take i) := fun b hb => hl b (List.mem_of_mem_take hb)
+  rw [getRoot_covers ok cm cv' key hk, read_your_writes (4 * n) (bs.take i) legal_take key hk]
 
 /-! Non-vacuity of the storage-layer hypotheses (a *test* on concrete values): a toy hash context with
 32-byte digests (a polynomial fingerprint; injectivity on the strings at hand is checked by evaluation),
@@ -283,6 +432,42 @@ example : Aergo.TrieStore.getRoot toyCtx (Aergo.TrieStore.storeAfter toyCtx 2 [t
     (rootOf toyCtx 8 (toyTree 2)) [false, false, false, false, true, true, false, true] = .ok (some (List.replicate 32 2)) :=
   old_roots_live toyCtx 2 toy_ok _ (by intro t ht; simp at ht; rcases ht with rfl | rfl <;> exact toy_committed _) toy_good
     (toyTree 2) (by simp) _ rfl
+
+/-- test: the two toy trees as a history of two blocks (insert both keys; overwrite the second) -/
+private def toyBs : List (List (KV Bytes)) :=
+  [[([false, false, false, false, false, false, false, true], some (List.replicate 32 1)),
+    ([false, false, false, false, true, true, false, true], some (List.replicate 32 2))],
+   [([false, false, false, false, true, true, false, true], some (List.replicate 32 3))]]
+
+example : runTrie 8 toyBs = toyTree 3 := by decide
+
+set_option maxRecDepth 1000000 in
+/-- test: the hypotheses of `incremental_commits_keep_roots_readable` hold for the toy history (checked by evaluation) -/
+private theorem toy_inc_good : Aergo.TrieStore.HashGoodOn toyCtx.H (hashedInc toyCtx 2 toyBs) ∧
+    ∀ x ∈ hashedInc toyCtx 2 toyBs, toyCtx.H x ≠ Aergo.TrieStore.zeroKey :=
+  ⟨⟨by decide, by decide⟩, by decide⟩
+
+/-- test: an instance — after both blocks, the root of the first block still reads the first value of the second key -/
+example : Aergo.TrieStore.getRoot toyCtx (Aergo.TrieStore.runBlocks toyCtx 2 toyBs).1 8
+    (rootOf toyCtx 8 (runTrie 8 (toyBs.take 1))) [false, false, false, false, true, true, false, true]
+      = .ok (specMap (toyBs.take 1) [false, false, false, false, true, true, false, true]) :=
+  incremental_commits_keep_roots_readable toyCtx 2 toy_ok toyBs
+    (by
+      intro b hb
+      simp only [toyBs, List.mem_cons, List.mem_nil_iff, or_false] at hb
+      rcases hb with rfl | rfl
+      · refine ⟨⟨by simp, ?_⟩, by simp⟩
+        simp [cmp]
+      · exact ⟨⟨by simp, by simp⟩, by simp⟩)
+    (by
+      intro b hb kv hkv v hv
+      simp only [toyBs, List.mem_cons, List.mem_nil_iff, or_false] at hb
+      rcases hb with rfl | rfl
+      · simp only [List.mem_cons, List.mem_nil_iff, or_false] at hkv
+        rcases hkv with rfl | rfl <;> (simp only [Option.some.injEq] at hv; subst hv; rfl)
+      · simp only [List.mem_cons, List.mem_nil_iff, or_false] at hkv
+        subst hkv; simp only [Option.some.injEq] at hv; subst hv; rfl)
+    toy_inc_good.1 toy_inc_good.2 1 (by simp [toyBs]) _ rfl
 
 /-! Non-vacuity (tests on concrete values, not proofs of the general claims): a height-3 history
 with an insertion on both sides of a deleted shortcut — the shape that was broken before the
